@@ -387,7 +387,10 @@ type fetchWorld struct {
 	sets     int
 	contacts []string
 	cancelAt int
-	cancel   context.CancelFunc
+	// the context is cancelled when the body of the k-th response has been delivered completely: that request succeeds, the
+	// context is done before the next one is made
+	cancelAfter int
+	cancel      context.CancelFunc
 	// what the responses say about their own length: 0 the truth, 1 unknown (-1), 2 nothing (0)
 	lengthMode int
 }
@@ -398,11 +401,16 @@ func (w *fetchWorld) RoundTrip(req *http.Request) (*http.Response, error) {
 	w.contacts = append(w.contacts, u)
 	a, ok := w.server[u]
 	cancelNow := w.cancelAt > 0 && len(w.contacts) >= w.cancelAt
+	cancelAfterThis := w.cancelAfter > 0 && len(w.contacts) == w.cancelAfter
 	cancel := w.cancel
 	w.mu.Unlock()
 	if cancelNow {
 		cancel()
 		return nil, req.Context().Err()
+	}
+	if err := req.Context().Err(); err != nil {
+		// (as net/http's transport: no request is sent for a context that is done)
+		return nil, err
 	}
 	reply := func(code int, body []byte) (*http.Response, error) {
 		cl := int64(len(body))
@@ -412,8 +420,12 @@ func (w *fetchWorld) RoundTrip(req *http.Request) (*http.Response, error) {
 		case 2:
 			cl = 0 // a hand-made response that says nothing
 		}
+		var rc io.ReadCloser = io.NopCloser(bytes.NewReader(body))
+		if cancelAfterThis {
+			rc = &cancelAtEOF{r: bytes.NewReader(body), cancel: cancel}
+		}
 		return &http.Response{StatusCode: code, Status: fmt.Sprintf("%d", code), Proto: "HTTP/1.1", ProtoMajor: 1, ProtoMinor: 1,
-			Header: http.Header{}, Body: io.NopCloser(bytes.NewReader(body)), ContentLength: cl, Request: req}, nil
+			Header: http.Header{}, Body: rc, ContentLength: cl, Request: req}, nil
 	}
 	if !ok {
 		return reply(404, []byte("not found"))
@@ -446,6 +458,25 @@ func (w *fetchWorld) RoundTrip(req *http.Request) (*http.Response, error) {
 			Body: io.NopCloser(io.MultiReader(bytes.NewReader(a.item.der), io.LimitReader(zeroReader{}, 33<<20))), Request: req}, nil
 	}
 	return reply(404, nil)
+}
+
+// cancelAtEOF delivers its bytes and cancels the caller's context together with the end of the body
+type cancelAtEOF struct {
+	r      *bytes.Reader
+	cancel context.CancelFunc
+}
+
+func (c *cancelAtEOF) Read(p []byte) (int, error) {
+	n, err := c.r.Read(p)
+	if err == io.EOF || c.r.Len() == 0 {
+		c.cancel()
+	}
+	return n, err
+}
+
+func (c *cancelAtEOF) Close() error {
+	c.cancel()
+	return nil
 }
 
 type zeroReader struct{}
@@ -580,6 +611,8 @@ type fetchOp struct {
 	name  string
 	// fetch only: the caller's context is cancelled when the k-th request of this fetch reaches the transport (0 = never)
 	cancelAt int
+	// fetch only: … when the k-th response of this fetch has been read to its end (0 = never)
+	cancelAfter int
 }
 
 type fetchCfg struct {
@@ -638,8 +671,13 @@ func runFetchHistory(r *Runner, pool *crlPool, cfg fetchCfg, init func(w *fetchW
 			}
 			absWorld := w.abs(now, append(w.mentioned(), op.url))
 			ctx, cancelCtx := context.WithCancel(context.Background())
-			w.cancelAt, w.cancel = op.cancelAt, cancelCtx
-			if op.cancelAt > 0 {
+			w.cancelAt, w.cancelAfter, w.cancel = op.cancelAt, op.cancelAfter, cancelCtx
+			effCancel := op.cancelAt
+			if op.cancelAfter > 0 {
+				// the k-th request is answered in full; what comes after it meets a context that is done
+				effCancel = op.cancelAfter + 1
+			}
+			if effCancel > 0 {
 				// abstractly: the requests of this fetch are, in order, the URL asked for and then the plain-http locations its list
 				// advertises; from the k-th on they fail (the context is done)
 				order := []string{op.url}
@@ -654,7 +692,7 @@ func runFetchHistory(r *Runner, pool *crlPool, cfg fetchCfg, init func(w *fetchW
 				}
 				saved := map[string]srvAns{}
 				for i, u := range order {
-					if i >= op.cancelAt-1 {
+					if i >= effCancel-1 {
 						if _, done := saved[u]; !done {
 							saved[u] = w.server[u]
 							w.server[u] = srvAns{kind: "transport-error"}
@@ -711,7 +749,7 @@ func runFetchHistory(r *Runner, pool *crlPool, cfg fetchCfg, init func(w *fetchW
 				}
 			}()
 			cancelCtx()
-			w.cancelAt = 0
+			w.cancelAt, w.cancelAfter = 0, 0
 			if hung {
 				r.Submit(&Case{ID: fmt.Sprintf("%s-%d.%d", label, idx, step), K: "fetch", Class: cfg.String() + "/" + label, local: true,
 					localClause: "fetch_does_not_return_once_the_transport_has_answered", In: in, Impl: map[string]any{"outcome": "hang"},
@@ -844,6 +882,10 @@ func genC18(r *Runner) {
 					}
 					add(cfg, init, []fetchOp{{kind: "fetch", url: urlBase, name: fmt.Sprintf("fetch, context cancelled at request %d", k), cancelAt: k},
 						{kind: "fetch", url: urlBase, name: "fetch"}}, fmt.Sprintf("cancel-at-%d:%s/%s", k, sh.name(), dw.name))
+					if k <= 2 {
+						add(cfg, init, []fetchOp{{kind: "fetch", url: urlBase, name: fmt.Sprintf("fetch, context cancelled when response %d has been read", k), cancelAfter: k},
+							{kind: "fetch", url: urlBase, name: "fetch"}}, fmt.Sprintf("cancel-after-%d:%s/%s", k, sh.name(), dw.name))
+					}
 				}
 			}
 		}
